@@ -230,6 +230,8 @@ struct Remote {
     control: crate::yamux::Control,
     /// Substreams the remote opened, by index.
     streams: Arc<Mutex<HashMap<usize, YStream>>>,
+    /// Those on which a proposal for an installed protocol has been sent: what follows is data.
+    proposed: std::collections::HashSet<usize>,
     opened: usize,
     /// Substreams the local end opened, as delivered by the remote's connection driver.
     inbound: Arc<Mutex<Vec<YStream>>>,
@@ -445,6 +447,7 @@ impl Conn {
             remote: Some(Remote {
                 control,
                 streams: Arc::new(Mutex::new(HashMap::new())),
+                proposed: Default::default(),
                 opened: 0,
                 inbound,
                 kept: Arc::new(Mutex::new(Vec::new())),
@@ -1006,7 +1009,9 @@ impl LoopBox {
             },
             ["remote_send", k] => {
                 let Some(k) = index(k) else { return "bad-op".into() };
-                if conn.remote_write(k, vec![7u8; 32]) {
+                // data only after a proposal the listener accepts: anything else would be read as a proposal
+                let proposed = conn.remote.as_ref().map_or(false, |r| r.proposed.contains(&k));
+                if proposed && conn.remote_write(k, vec![7u8; 32]) {
                     conn.settle(false, |_| true).await;
                     "ok".into()
                 } else {
@@ -1079,6 +1084,7 @@ impl LoopBox {
                 None => return "bad-op".into(),
             },
             ["remote_open", name, how] => {
+                let installed = name.parse::<usize>().map_or(false, |i| i < n) && *how == "full";
                 let Some(name) = wire_name(name) else { return "bad-op".into() };
                 let mut bytes = MSS_HEADER.to_vec();
                 match *how {
@@ -1088,6 +1094,9 @@ impl LoopBox {
                 }
                 match conn.remote_open(bytes) {
                     Some(k) => {
+                        if installed {
+                            conn.remote.as_mut().expect("opened").proposed.insert(k);
+                        }
                         conn.settle(false, |_| true).await;
                         format!("s{k}")
                     }
@@ -1095,10 +1104,14 @@ impl LoopBox {
                 }
             }
             ["remote_continue", k, name] => {
+                let installed = name.parse::<usize>().map_or(false, |i| i < n);
                 let (Some(k), Some(name)) = (index(k), wire_name(name)) else {
                     return "bad-op".into();
                 };
                 if conn.remote_write(k, mss_proposal(&name)) {
+                    if installed {
+                        conn.remote.as_mut().expect("written").proposed.insert(k);
+                    }
                     conn.settle(false, |_| true).await;
                     "ok".into()
                 } else {
